@@ -346,6 +346,7 @@ class ModelRegistry:
             raise Unsupported('comprehension over symbolic range')
         # evaluate filter and element for an arbitrary index k (merged, pure)
         k = st.fresh_int('ck')
+        k_counter = st.counter
         sub = Env({}, env, env.finfo)
 
         def body_cond():
@@ -365,16 +366,31 @@ class ModelRegistry:
         elt_v = it.eval_merged(body_elt, 'val', assuming=in_range)
         kept += list(getattr(it, 'last_merged_assumptions', []))
         from z3 import z3util
+        generalised = []
         for f in kept:
-            if any(z3.eq(v_, k) for v_ in z3util.get_vars(f)):
-                raise Unsupported('comprehension body calls a function whose contract result is not an explicit '
-                                  'term of the state (result_term missing)')
+            vs_ = z3util.get_vars(f)
+            if not any(z3.eq(v_, k) for v_ in vs_):
+                continue
+            for v_ in vs_:
+                nm_ = v_.decl().name()
+                if '!' in nm_ and not z3.eq(v_, k):
+                    try:
+                        idx_ = int(nm_.rsplit('!', 1)[1])
+                    except ValueError:
+                        continue
+                    if idx_ >= k_counter:
+                        raise Unsupported('comprehension body calls a function whose contract result is not an explicit '
+                                          'term of the state (result_term missing)')
+            generalised.append(f)
         cond_t = as_z3(as_bool_term(cond_v))
         elt_t = lift(elt_v, st)
         kk = z3.Int('qk')
         cond_f = lambda idx: z3.substitute(cond_t, (k, idx))
         elt_f = lambda idx: z3.substitute(elt_t, (k, idx))
         used(it, 'comprehension semantics: order-preserving filter-map of the iterated sequence')
+        for f in generalised:
+            # facts established for an arbitrary in-range index hold for every in-range index
+            st.assume(FA([kk], z3.Implies(z3.And(kk >= 0, kk < base.len), z3.substitute(f, (k, kk))), patterns=[base.at(kk)]))
         if kind == 'set':
             s = SymSet.fresh(st, 'comp')
             v = z3.Const('qv', PyV)
@@ -471,7 +487,14 @@ class ModelRegistry:
         if name == 'join':
             seq = it.iter_seq(ca.args[0])
             if isinstance(seq, tuple):
-                parts = [it.as_str(x) for x in seq]
+                parts = []
+                for x in seq:
+                    if isinstance(x, SymV):
+                        if not it.st.branch(PyV.is_str_(x.t), 'join-part-is-str'):
+                            it.raise_builtin('TypeError', 'sequence item: expected str instance')
+                        parts.append(PyV.s(x.t))
+                    else:
+                        parts.append(it.as_str(x))
                 if any(p is None for p in parts):
                     raise Unsupported('join of non-strings')
                 out = None
